@@ -201,6 +201,17 @@ def assign_target(self, t, v):
     if k is ast.Subscript:
         base = self.eval(t.value)
         if isinstance(t.slice, ast.Slice):
+            # lst[a:b] = iterable on a list of concrete shape with concrete (or absent) bounds, no step: in-place replacement
+            sl = t.slice
+            lo = self.eval(sl.lower) if sl.lower is not None else None
+            hi = self.eval(sl.upper) if sl.upper is not None else None
+            if (isinstance(base, PList) and not base.symbolic and sl.step is None and base.kind == "list"
+                    and (lo is None or isinstance(lo, int)) and (hi is None or isinstance(hi, int))):
+                new_items = list(self.iterate(v))
+                items = list(base.items)
+                items[lo:hi] = new_items
+                base.items[:] = items
+                return
             raise Unsupported("slice assignment")
         self.set_item(base, self.eval(t.slice), v)
         return
